@@ -267,3 +267,11 @@ impl From<Window> for isize {
         w.0 as isize
     }
 }
+
+#[cfg(feature = "h2_verif")]
+impl FlowControl {
+    /// Signed window size (verification statistics).
+    pub fn verif_window(&self) -> i32 {
+        self.window_size.0
+    }
+}
